@@ -24,7 +24,10 @@ MANIFEST = {
             'expectation, every honest connection is still registered, greeted and parseable; at most the adversarial '
             'connection was closed.',
     'note': 'Frames are bounded (<= 64 KiB): CPU/memory exhaustion inputs are out of scope (no cost model). Well-formed '
-            'unsolicited responses carrying stand-alone-valid blocks are not in the malformed classes and are not sent.',
+            'responses nobody asked for (out of protocol order) carry rule-breaking blocks; blocks announced, requested and then '
+            'served with a height that is not parent + 1 (in protocol order, structurally inconsistent) must be refused. '
+            'Rule-breaking but structurally consistent blocks served in answer to the node\'s own request are the bulk-download '
+            'trust model of this code (every 10,000th block is validated) and are not sent.',
 }
 
 ADV = ['bad_magic', 'len_over', 'len_zero', 'garbage', 'pre_hello_getblocks', 'pre_hello_data', 'pre_hello_garbage',
@@ -33,7 +36,9 @@ ADV = ['bad_magic', 'len_over', 'len_zero', 'garbage', 'pre_hello_getblocks', 'p
        'unknown_msg_type', 'bad_version', 'truncated_payload', 'unknown_data_type', 'data_header', 'getdata_tx',
        'getdata_unknown', 'inv_oversize', 'inv_unknown_type', 'struct_block', 'struct_block_response', 'struct_tx',
        'flip_known_block', 'flip_frame', 'splice', 'dup_flood', 'hello_twice', 'peers_weird', 'trailing', 'truncate_then_valid',
-       'bad_tx_payload', 'bad_block_payload', 'huge_vlq', 'inv_known', 'getblocks_unknown', 'close_mid_frame', 'instate_invalid_relay']
+       'bad_tx_payload', 'bad_block_payload', 'huge_vlq', 'inv_known', 'getblocks_unknown', 'close_mid_frame', 'instate_invalid_relay',
+       'instate_invalid_unrequested_response', 'instate_invalid_unrequested_response', 'announced_then_served_wrong_height',
+       'announced_then_served_wrong_height']
 STRUCT_BLOCKS = ['no_txs', 'dup_tx', 'wrong_merkle', 'merkle_dup_last', 'reward_two_inputs', 'reward_real_ref', 'two_rewards',
                  'reward_not_first', 'reward_height_differs', 'out_zero', 'null_ref', 'placeholder_sig', 'dup_ref_in_tx',
                  'dup_ref_in_block', 'outs_sum_over_max']
@@ -265,11 +270,29 @@ def execute(script):
                 except Exception:
                     return
                 send(frame(hdr(resp=(0 if kind == 'struct_block' else 1 + b)) + payload))
-            elif kind == 'instate_invalid_relay':
+            elif kind in ('instate_invalid_relay', 'instate_invalid_unrequested_response'):
+                # the second kind is out of protocol order: a "response" (in_response_to != 0) to a request the node never made
                 blk = forged_block(INSTATE[a % len(INSTATE)], op)
                 if blk is None:
                     return
-                send(frame(hdr(resp=0) + M.DataMessage(M.DATA_BLOCK, blk).serialize()))
+                send(frame(hdr(resp=(0 if kind == 'instate_invalid_relay' else 1 + b)) + M.DataMessage(M.DATA_BLOCK, blk).serialize()))
+            elif kind == 'announced_then_served_wrong_height':
+                # in protocol order, but structurally inconsistent: the peer announces a block, the node asks for it, and what is
+                # served claims a height that is not its parent's plus one
+                blk = forged_block(['height_plus_2', 'height_same', 'height_low_pure'][a % 3], op)
+                if blk is None:
+                    return
+                par_ = chain.blocks.get(blk.header.summary.previous_block_hash)
+                if par_ is None or blk.header.summary.height == par_.height + 1:
+                    return          # (a "low" height can coincide with parent + 1 on a short chain: then nothing is structurally wrong)
+                bid_ = rules.block_id(blk)
+                adv.b['serve'] = {'blocks': {bid_: blk}, 'chain': []}
+                send(frame(hdr() + M.InventoryMessage([M.InventoryItem(M.DATA_BLOCK, bid_)]).serialize()))
+                w.settle(2500)
+                served = sum(1 for c_ in adv.conns for (_t, _h, m_, _p) in c_.received
+                             if isinstance(m_, M.GetDataMessage) and m_.hash == bid_)
+                if served:
+                    res.bump('probe:node_requested_the_announced_forgery')
             elif kind == 'struct_tx':
                 tx = struct_tx(STRUCT_TX[a % len(STRUCT_TX)], b)
                 if tx is None:
